@@ -27,3 +27,6 @@ W int w_reserved(const char* key){ return photospline::reservedFitsKeyword(key);
 #ifdef WITH_REMOVE_KEY
 W int w_remove_key(ST* t, const char* key){ return t->remove_key(key); }
 #endif
+// micro entry points used to validate the stream model in isolation
+W int w_stream_str(const char* v, char* out, size_t cap){ std::ostringstream ss; ss << v; if (ss.fail()) return 0; std::string s = ss.str(); size_t n = std::min(cap - 1, s.size()); memcpy(out, s.data(), n); out[n] = 0; return (int)s.size(); }
+W int w_stream_parse_int(const char* v, int* out){ std::istringstream ss(v); ss >> *out; return !ss.fail(); }
